@@ -11,6 +11,12 @@ const IDLE: u16 = 0x9000;
 const OUTC: u16 = 0x9100;
 const RATES: [usize; 10] = [8000, 8001, 11025, 22050, 44100, 44099, 48000, 96000, 192000, 384000];
 
+thread_local! {
+    /// history of the machine under test: 0 = fresh; 1/2 = a SNA/SZX snapshot holding the test program was
+    /// loaded while the previous program (EI; HALT loop) was waiting in HALT
+    static PREP: std::cell::Cell<u8> = std::cell::Cell::new(0);
+}
+
 fn machine(m128: bool, rate: usize, volume: u8, beeper: bool, ay: bool) -> Emu {
     let mut o = Opts::machine(m128);
     o.rate = rate;
@@ -19,6 +25,39 @@ fn machine(m128: bool, rate: usize, volume: u8, beeper: bool, ay: bool) -> Emu {
     o.ay = ay;
     o.sound = true;
     let mut e = rig::emu_stepping(&o);
+    let prep = PREP.with(|p| p.get());
+    if prep != 0 {
+        rig::poke(&mut e, 0x8000, &[0xFB, 0x76, 0x18, 0xFD]);
+        let mut r = RegsView::default();
+        r.pc = 0x8000;
+        r.sp = 0xBF00;
+        r.im = 1;
+        r.iff1 = true;
+        r.iff2 = true;
+        rig::set_regs(e.verif_cpu(), &r);
+        let mut guard = 0;
+        while (e.verif_total_frames() < 3 || !e.verif_cpu().halted) && guard < 200_000 {
+            rig::step(&mut e);
+            guard += 1;
+        }
+        let mut s = crate::formats::MState::new(m128, 0);
+        s.regs.pc = IDLE;
+        s.regs.sp = 0xBF00;
+        s.regs.iff1 = false;
+        s.regs.iff2 = false;
+        s.banks[2][(IDLE - 0x8000) as usize..(IDLE - 0x8000) as usize + 3].copy_from_slice(&[0xF3, 0x18, 0xFE]);
+        s.banks[2][(OUTC - 0x8000) as usize..(OUTC - 0x8000) as usize + 5].copy_from_slice(&[0xED, 0x79, 0xC3, IDLE as u8, (IDLE >> 8) as u8]);
+        let res = if prep == 1 {
+            let f = if m128 { crate::formats::sna128(&s) } else { crate::formats::sna48(&s) };
+            e.load_snapshot(rustzx_core::host::Snapshot::Sna(rig::VAsset::new(f)))
+        } else {
+            e.load_snapshot(rustzx_core::host::Snapshot::Szx(rig::VAsset::new(crate::formats::szx(&s, &crate::formats::SzxOpts::default()))))
+        };
+        if res.is_err() {
+            eprintln!("MACHINERY: C19 could not load its own snapshot");
+            std::process::exit(2);
+        }
+    }
     rig::poke(&mut e, IDLE, &[0xF3, 0x18, 0xFE]);
     rig::poke(&mut e, OUTC, &[0xED, 0x79, 0xC3, IDLE as u8, (IDLE >> 8) as u8]);
     let mut r = RegsView::default();
@@ -72,7 +111,7 @@ fn toggle_case(ctx: &Ctx, m128: bool, rate: usize, volume: u8, bit: u8, t: usize
     rig::drain_audio(&mut e);
     to_frame_end(&mut e, m128);
     let pre = rig::drain_audio(&mut e);
-    let case = json!({"kind":"toggle","m128":m128,"rate":rate,"volume":volume,"bit":bit,"t":t,"second":second});
+    let case = json!({"kind":"toggle","m128":m128,"rate":rate,"volume":volume,"bit":bit,"t":t,"second":second,"prep":PREP.with(|p| p.get())});
     // now a few T into a fresh frame
     let start = e.verif_frame_clocks();
     let (t0, t1) = out_at(&mut e, t.max(start), bit);
@@ -93,7 +132,11 @@ fn toggle_case(ctx: &Ctx, m128: bool, rate: usize, volume: u8, bit: u8, t: usize
     let got = rig::drain_audio(&mut e);
     let extra = (spf as u64 * fc / sp.frame) as usize;
     ctx.add_eval(1);
-    let mname = if m128 { "128k" } else { "48k" };
+    let mname = format!("{}{}", if m128 { "128k" } else { "48k" }, match PREP.with(|p| p.get()) {
+        1 => ":sna-loaded-into-halted-machine",
+        2 => ":szx-loaded-into-halted-machine",
+        _ => "",
+    });
     if (got.len() as i64 - (spf + extra) as i64).abs() > 1 || pre.len() < spf || pre.len() > spf + 8 {
         ctx.violation(
             &format!("C19:samples-per-frame:{}", mname),
@@ -328,6 +371,7 @@ pub fn run(tier: Tier, seed: u64, replay: Option<String>) -> i32 {
         } else if c["kind"] == "long-instr" {
             long_instruction_frames(&ctx, m128, rate);
         } else if c["kind"] == "toggle" {
+            PREP.with(|p| p.set(c["prep"].as_u64().unwrap_or(0) as u8));
             toggle_case(&ctx, m128, rate, c["volume"].as_u64().unwrap_or(100) as u8, c["bit"].as_u64().unwrap_or(16) as u8, c["t"].as_u64().unwrap_or(0) as usize, c["second"].as_u64().map(|x| x as usize));
         } else {
             drain_schedules(&ctx, m128, rate, c["ay"].as_bool().unwrap_or(false));
@@ -399,6 +443,19 @@ pub fn run(tier: Tier, seed: u64, replay: Option<String>) -> i32 {
         }
     });
     ctx.note("corner_rates", json!(corner_rates));
+    // the same toggle test on machines that got their program from a snapshot loaded while the previous
+    // program was waiting in HALT
+    let hjobs: Vec<(bool, u8, usize)> = [false, true].iter().flat_map(|m| [1u8, 2].iter().flat_map(move |p| [8000usize, 44100].iter().map(move |r| (*m, *p, *r)))).collect();
+    par_for(hjobs.len(), 1, |j| {
+        let (m128, prep, rate) = hjobs[j];
+        PREP.with(|p| p.set(prep));
+        let frame = spec(m128).frame as usize;
+        for t in [8usize, 3000, frame / 3, frame / 2 + 7, frame - 3000, frame - 200] {
+            toggle_case(&ctx, m128, rate, 100, 0x10, t, None);
+            toggle_case(&ctx, m128, rate, 100, 0x10, t, Some(40));
+        }
+        PREP.with(|p| p.set(0));
+    });
     configuration_corners(&ctx);
     ctx.add_nontrivial(cjobs.len() as u64 * 69);
     ctx.add_nontrivial(jobs.len() as u64 + djobs.len() as u64 * 64 + ljobs.len() as u64);
@@ -407,7 +464,7 @@ pub fn run(tier: Tier, seed: u64, replay: Option<String>) -> i32 {
     ctx.note("drain_patterns", json!(djobs.len() * 64));
     ctx.note("not_judged", json!("which frame the few samples belong to that are produced while the last instruction of a frame runs into the next one (they are counted by emulated time)"));
     ctx.finish(
-        "sample rates {8000,8001,11025,22050,44100,44099,48000,96000,192000,384000} x {48K,128K}: one OUT (FE) toggling bit 4 with its start at every T of the frame (quick: first, middle and last 256 T), sparser sets for bit 3, volumes {0,1,200} and two toggles closer than one sample; per drained frame floor(rate/50) samples (by emulated time), every sample before/after the edge window equals the level set, the edge within one sample of the OUT, all samples finite and bounded; all 64 drain/no-drain patterns over 6 frames x rates x machines x AY off / on and sounding (three tones + noise at full volume): queue always below two frames' worth, every sample finite and within (0.6 + 3.75) x volume/200; a free-running loop of 23/19/12-T instructions over 60 frames (frame ends overrun by varying amounts), drained at every boundary: exactly floor(rate/50) samples per frame at every rate; the same three families at the 20 rates whose frame length is a power of two 256..4096 or next to one; beeper disabled (EAR/MIC values leave the output at 0) and the AY switched on/off at run time at volumes 40/100/180 (levels keep following the volume). distinct_nontrivial = cases",
+        "sample rates {8000,8001,11025,22050,44100,44099,48000,96000,192000,384000} x {48K,128K}: one OUT (FE) toggling bit 4 with its start at every T of the frame (quick: first, middle and last 256 T), sparser sets for bit 3, volumes {0,1,200} and two toggles closer than one sample; per drained frame floor(rate/50) samples (by emulated time), every sample before/after the edge window equals the level set, the edge within one sample of the OUT, all samples finite and bounded; all 64 drain/no-drain patterns over 6 frames x rates x machines x AY off / on and sounding (three tones + noise at full volume): queue always below two frames' worth, every sample finite and within (0.6 + 3.75) x volume/200; a free-running loop of 23/19/12-T instructions over 60 frames (frame ends overrun by varying amounts), drained at every boundary: exactly floor(rate/50) samples per frame at every rate; the same three families at the 20 rates whose frame length is a power of two 256..4096 or next to one; the toggle test on machines whose program came from a SNA/SZX snapshot loaded while the previous program was waiting in HALT; beeper disabled (EAR/MIC values leave the output at 0) and the AY switched on/off at run time at volumes 40/100/180 (levels keep following the volume). distinct_nontrivial = cases",
         false,
         &["frame clock placed through the hook before each OUT; remaining frame is idle loop", "beeper-only machines for the edge test so the AY path does not blur levels"],
     )
